@@ -1,6 +1,8 @@
 import UsualProofs.C04.Ends
 import UsualProofs.C04.RoundTrip
 import UsualProofs.C04.RoundTripB
+import UsualProofs.C04.SubMatch
+import UsualProofs.C04.CMatchFrag
 /-! # Property C04 — internal regex: POSIX leftmost-longest matching
 
 Level of this property: **exploration with a proved oracle**.  The theorems below are about the
@@ -87,6 +89,47 @@ theorem llmatch_isSome_iff (e : Env) (r : Re) :
 
 example : (llmatch { s := #[98, 65], icase := true } (.chr 97)).isSome = true := by decide
 
+/-! ### the sub-match clause (`pmatchOk`), about the reference -/
+
+/-- What the monitored predicate says: `pm[0]` is an ordered range inside the subject, and every
+further entry is either unset `(-1,-1)` or belongs to a group (`k+1 ≤ nsub`) and is an ordered
+range inside `pm[0]` (hence inside the subject). -/
+theorem pmatchOk_spec (len nsub : Nat) (so0 eo0 : Int) (rest : List (Int × Int))
+    (h : pmatchOk len nsub ((so0, eo0) :: rest) = true) :
+    (0 ≤ so0 ∧ so0 ≤ eo0 ∧ eo0 ≤ (len : Int)) ∧
+    ∀ k (hk : k < rest.length), rest[k] = (-1, -1) ∨
+      (k + 1 ≤ nsub ∧ so0 ≤ rest[k].1 ∧ rest[k].1 ≤ rest[k].2 ∧ rest[k].2 ≤ eo0 ∧
+        0 ≤ rest[k].1 ∧ rest[k].2 ≤ (len : Int)) :=
+  ⟨pmatchOk_head h, fun k hk => pmatchOk_entry h k hk⟩
+
+example : pmatchOk 4 3 [(0, 4), (0, 2), (-1, -1), (3, 4)] = true ∧
+    pmatchOk 4 3 [(0, 4), (0, 2), (2, 5)] = false ∧ pmatchOk 4 1 [(0, 4), (-1, -1), (1, 2)] = false := by decide
+
+/-- The clause is satisfiable exactly when the reference finds a match: for the overall match
+`llmatch` reports there is an assignment of `re_nsub + 1` entries with `pm[0]` = that match which
+satisfies `pmatchOk`; and an assignment whose `pm[0]` is a match of the pattern can only exist if
+`llmatch` reports one. -/
+theorem submatch_clause_satisfiable (e : Env) (r : Re) :
+    (∃ i j pm, llmatch e r = some (i, j) ∧ pm.length = r.groups + 1 ∧
+        pm.head? = some ((i : Int), (j : Int)) ∧ pmatchOk e.s.size r.groups pm = true) ↔
+    ∃ i j, Matches e r i j := by
+  constructor
+  · rintro ⟨i, j, _, hl, _⟩
+    exact ⟨i, j, ((llmatch_spec e r i j).mp hl).1⟩
+  · intro h
+    have hs := (llmatch_isSome_iff e r).mpr h
+    cases hl : llmatch e r with
+    | none => rw [hl] at hs; cases hs
+    | some p =>
+      obtain ⟨i, j⟩ := p
+      have hm := ((llmatch_spec e r i j).mp hl).1
+      have hb := Matches.bounds hm
+      exact ⟨i, j, unsetPm i j r.groups, rfl, by simp [unsetPm], rfl, pmatchOk_unset hb.1 hb.2⟩
+
+example : ∃ pm, pm.length = 2 ∧ pm.head? = some ((0 : Int), (2 : Int)) ∧
+    pmatchOk 2 1 pm = true ∧ llmatch { s := #[97, 98] } (.cat (.group (.chr 97)) (.chr 98)) = some (0, 2) :=
+  ⟨[(0, 2), (0, 1)], rfl, rfl, by decide, by decide⟩
+
 /-- The parser model inverts the ERE renderer: for every tree of the bracket-free grammar
 (`wfE`: literals, `.`, anchors, groups, alternation, `* + ? {m} {m,} {m,n}` with counts below
 `MAX_COUNT`, fewer than `MAX_GROUPS` groups) the text `renderERE r` compiles, without error, to
@@ -145,6 +188,52 @@ example : wfB (.cat .bol (.cat (.rep (.group (.rep (.chr 66) 0 none)) 2 none) (.
     (.cat .bol (.cat (.rep (.group (.rep (.chr 66) 0 none)) 2 none) (.cat (.chr 42) .eol))) (by decide)
   rw [e] at this
   exact this
+
+/-! ### the model of the C back-tracking matcher (`Usual.C04.CM`, lean/Usual/C04/CMatch.lean)
+
+`CM.cExec` transcribes `usual_regexec` (`scan_next / match_group / match_gend` with the repaired
+`minok` logic, `got_full_match / gm_resolve_tie / cmp_gmatches / gmatch_hist_cmp / fill_history /
+publish_gm`).  It is compared with the C code line by line in the correspondence run (the whole
+`pmatch` array of every execution, internal projection of the `y` ops). -/
+
+/-- On parenthesis-free patterns (op lists of simple atoms with counts and anchors, alternation
+at the top level) the matcher model is leftmost-longest with respect to the declarative reading
+`CM.OpsMatch` of its op lists: unless the model itself ran out of fuel/steps, it returns 0 iff
+some alternative matches somewhere, it stops at the leftmost such start, and in strict mode
+(`pmatch` wanted) `last_endpos` is the longest end from there; it returns REG_NOMATCH iff nothing
+matches at any start.  Proved by simultaneous induction over `do_match / scan_next` and its
+back-off loop, the OR-list loop of `match_group`, and the start-position loop of `regexec`.
+
+Full statement (not proved yet):
+
+  theorem cmatch_refines_llmatch (r : Re) (e : Env) (nosub : Bool) (nmatch : Nat) :
+      CM.compileOps r = some (alts, nsub) → Good (CM.cExec alts nsub nosub e nmatch budget fuel).rc →
+      (CM.cExec …).rc = (if (llmatch e r).isSome then 0 else REG_NOMATCH) ∧
+      (¬nosub → nmatch > 0 → (CM.cExec …).pm.head? = (llmatch e r).map (fun (i,j) => (i,j)))
+
+Missing: (a) the link `OpsMatch (compile r) ↔ Matches e r` for the fragment (greedy run length of
+an atom vs. `Iter` of one-byte matches; fuel adequacy of `compileOps`) and `pm[0] = (start,
+last_endpos)` through `publish_gm`; (b) groups: `match_group / match_gend` re-entry, the `minok`
+rule and zero-length pruning against `Iter.drop`. -/
+theorem cmatch_ops_leftmost_longest_partial (alts : List (List CM.COp))
+    (hsimple : ∀ a, a ∈ alts → ∀ op, op ∈ a → CM.Simple op = true) (nosub : Bool) (e : Env)
+    (nmatch budget fuel : Nat)
+    (hg : (CM.cExec alts 0 nosub e nmatch budget fuel).rc ≠ CM.OUT_OF_BUDGET ∧
+          (CM.cExec alts 0 nosub e nmatch budget fuel).rc ≠ CM.OUT_OF_FUEL) :
+    ((CM.cExec alts 0 nosub e nmatch budget fuel).rc = 0 ∧
+      CM.OpsLL e alts (!nosub && decide (nmatch > 0)) (CM.cExec alts 0 nosub e nmatch budget fuel).rc
+        (CM.cExec alts 0 nosub e nmatch budget fuel).start (CM.cExec alts 0 nosub e nmatch budget fuel).last) ∨
+    ((CM.cExec alts 0 nosub e nmatch budget fuel).rc = CM.NOMATCH ∧
+      ∀ i, i ≤ e.s.size → ∀ j, ¬ CM.AltsMatch e alts i j) :=
+  CM.cExec_ops_spec alts hsimple nosub e nmatch budget fuel hg
+
+/-- `a|ab*` on "xabb": the model stops at start 1 with `last_endpos` = 4 and reports `(1,4)` -/
+example :
+    let alts : List (List CM.COp) := [[.chr 97 1 1], [.chr 97 1 1, .chr 98 0 CM.MAXC]]
+    let res := CM.cExec alts 0 false { s := #[120, 97, 98, 98] } 1 1000 100
+    (∀ a, a ∈ alts → ∀ op, op ∈ a → CM.Simple op = true) ∧
+    res.rc = 0 ∧ res.start = 1 ∧ res.last = some 4 ∧ res.pm = [(1, 4)] := by
+  refine ⟨by decide, by decide +kernel, by decide +kernel, by decide +kernel, by decide +kernel⟩
 
 /-- The repaired `match_gend` (fix F25) is needed: with a minimum count, an empty iteration may
 have to be followed by a non-empty one.  `(a|^){2}` on "a" matches `[0,1)` — the unchanged C
